@@ -26,7 +26,7 @@ CHECKS['C09'] = dict(
    ref='DESIGN.md §4 C09')
 CHECKS['C16'] = dict(
    technique='exhaustive enumeration of all strings up to a length bound over adversarial alphabets, lexed by the real lexer and by an independent reference tokenizer; print->read round trip over complete small value sets',
-   text='Seven families: all strings <= 5 (quick) / 6 (thorough) over a 27-character adversarial alphabet (termination within len+2 calls, tiling by last_substr, token agreement), all integer spellings (sign x radix prefix x digit bodies + boundary spellings around +-2^127), reals, string bodies, bit-string bodies, comments, and print->read of ints, all bit-strings of 0..=12 bits and nested vectors/maps.',
+   text='Seven families: all strings <= 5 (quick) / 6 (thorough) over a 29-character adversarial alphabet (termination within len+2 calls, tiling by last_substr, token agreement), all integer spellings (sign x radix prefix x digit bodies + boundary spellings around +-2^127), reals, string bodies, bit-string bodies, comments, and print->read of ints, all bit-strings of 0..=12 bits and nested vectors/maps.',
    note='Reference tokenizer written from README + pinned lexer tests; typographic quotes and non-ASCII whitespace are undocumented (only generic obligations checked there); strings longer than the bound not covered.',
    ref='DESIGN.md §4 C16')
 CHECKS['C02'] = dict(
